@@ -146,3 +146,38 @@ pub use wtransport_proto as proto;
 pub use quinn;
 
 mod driver;
+
+/// Verification hooks (never used by the library itself).
+#[cfg(feature = "verif-hooks")]
+#[allow(missing_docs)]
+pub mod verif_hooks {
+    use std::sync::atomic::AtomicU64;
+
+    pub use crate::driver::utils::bichannel;
+    pub use crate::driver::utils::shared_result;
+    pub use crate::driver::utils::BiChannelEndpoint;
+    pub use crate::driver::utils::SendError;
+    pub use crate::driver::utils::SharedResultGet;
+    pub use crate::driver::utils::SharedResultSet;
+    pub use crate::driver::utils::TrySendError;
+
+    /// Number of iterations of the driver worker's select loop (all connections).
+    pub static WORKER_LOOP_ITERATIONS: AtomicU64 = AtomicU64::new(0);
+
+    /// Encodes an HTTP3 datagram for `session_id` exactly as `send_datagram` does.
+    pub fn datagram_write(session_id: crate::SessionId, payload: &[u8]) -> bytes::Bytes {
+        crate::datagram::Datagram::write(session_id, payload).into_quic_bytes()
+    }
+
+    /// Decodes a received QUIC datagram exactly as the driver does.
+    pub fn datagram_read(
+        quic_dgram: bytes::Bytes,
+    ) -> Result<crate::datagram::Datagram, crate::proto::error::ErrorCode> {
+        crate::datagram::Datagram::read(quic_dgram)
+    }
+
+    /// Size of the HTTP3 datagram header for `session_id` as used by `max_datagram_size`.
+    pub fn datagram_header_size(session_id: crate::SessionId) -> usize {
+        crate::datagram::Datagram::header_size(session_id)
+    }
+}
